@@ -1,6 +1,7 @@
 """C06 Crash recovery: classification of open errors, scan extent, init fallback."""
 import core
 import prims
+import blobs
 from core import op_local, op_const
 from engine import Rule
 
@@ -206,7 +207,7 @@ def k5(ctx, rid):
     if f is None:
         raise core.AnchorLost('init_from_existing')
     pops = [c for c in f.calls if 'storage::core::Storage::<K>::pop_active' in prog.resolve(c)]
-    news = [c for c in f.calls if 'blob::core::Blob::<K>::open_new' in prog.resolve(c)]
+    news = [c for c in f.calls if blobs.is_fresh_call(prog, c)]
     if not pops or not news:
         raise core.AnchorLost('pop_active / open_new in init_from_existing')
     key = 'promote-only-if-nonempty|storage::core::Storage::<K>::init_from_existing'
